@@ -76,6 +76,25 @@ V = [
     ('px/context.go', "func Go(f ContextDoer) {\n\tFork(CurrentContext(), f)\n}", "func Go(f ContextDoer) {\n\tcf := CurrentContext().Fork()\n\tgo func() {\n\t\tdefer threadlocal.Cleanup()\n\t\tthreadlocal.Init()\n\t\tthreadlocal.Set(PuppetContextKey, cf)\n\t\tf(cf)\n\t}()\n}")),
  ('H3 harmless: pxContext.Fork copies vars before cloning', 'quiet') + edit(
     ('internal/context.go', "\ts := make([]issue.Location, len(c.stack))\n\tcopy(s, c.stack)\n\tclone := c.clone()\n", "\tclone := c.clone()\n\ts := append([]issue.Location{}, c.stack...)\n")),
+ # ---- second round (strengthening after the seeded changes C14-m1, C14-m2) ----
+ ('S1 seeded C14-m1: Fork copies vars only if len > 0 (an emptied table is shared)', 'fire') + edit(
+    ('internal/context.go', "\tif c.vars != nil {\n\t\tcv := make", "\tif len(c.vars) > 0 {\n\t\tcv := make")),
+ ('S2 seeded C14-m2: getg reads the stack header through 16 bytes', 'fire') + edit(
+    ('threadlocal/gid.go', "\tvar buf [64]byte\n\n\tl := runtime.Stack(buf[:64], false)", "\tvar buf [16]byte\n\n\tl := runtime.Stack(buf[:], false)")),
+ ('V1 Fork copies the stack only if len > 0 (an emptied stack shares its backing array)', 'fire') + edit(
+    ('internal/context.go', "\ts := make([]issue.Location, len(c.stack))\n\tcopy(s, c.stack)\n", "\ts := c.stack\n\tif len(c.stack) > 0 {\n\t\ts = make([]issue.Location, len(c.stack))\n\t\tcopy(s, c.stack)\n\t}\n")),
+ ('V2 Fork shares the stack array with clipped capacity (pop+push in the parent shows in the child)', 'fire') + edit(
+    ('internal/context.go', "\ts := make([]issue.Location, len(c.stack))\n\tcopy(s, c.stack)\n", "\ts := c.stack[:len(c.stack):len(c.stack)]\n")),
+ ('V3 getg keeps the low 20 bits of the id', 'fire') + edit(
+    ('threadlocal/gid.go', "\treturn n\n}", "\treturn n&0xfffff + 1\n}")),
+ ('V4 DoWithParent(context) makes the parent itself current (no fork)', 'fire') + edit(
+    ('internal/runtime.go', "\t\tctx := ec.Fork()\n\t\tpx.DoWithContext(ctx, actor)", "\t\tpx.DoWithContext(ec, actor)")),
+ ('V5 getg reads the stack header through 17 bytes', 'fire') + edit(
+    ('threadlocal/gid.go', "\tvar buf [64]byte\n\n\tl := runtime.Stack(buf[:64], false)", "\tvar buf [17]byte\n\n\tl := runtime.Stack(buf[:], false)")),
+ ('H4 harmless: Delete drops the variable table when it becomes empty', 'quiet') + edit(
+    ('internal/context.go', "\t\tdelete(c.vars, key)\n", "\t\tdelete(c.vars, key)\n\t\tif len(c.vars) == 0 {\n\t\t\tc.vars = nil\n\t\t}\n")),
+ ('H5 harmless: getg reads the stack header through 32 bytes (every int64 numeral fits)', 'quiet') + edit(
+    ('threadlocal/gid.go', "\tvar buf [64]byte\n\n\tl := runtime.Stack(buf[:64], false)", "\tvar buf [32]byte\n\n\tl := runtime.Stack(buf[:], false)")),
 ]
 
 only = sys.argv[1:]
